@@ -246,6 +246,16 @@ func GenOAFile(r *R, idx int, o OAOpts) (*ir.Request, []string) {
 			}
 			svc.Methods = append(svc.Methods, m)
 		}
+		if s == 0 && o.on("go_name_collision", r, 1, 10) && len(svc.Methods) > 0 {
+			// RPC names that differ as proto names and coincide once camel-cased the Go way (`GetUser` / `get_user`,
+			// `Get2fa` / `Get2Fa`): operation ids are the PROTO names, unique per service
+			m0 := svc.Methods[0]
+			for k, nm := range []string{"GetUser", "get_user", "Get2fa", "Get2Fa"} {
+				svc.Methods = append(svc.Methods, &ir.Method{Name: nm, Input: m0.Input, Output: m0.Output,
+					Config: &ir.HTTPConfig{Path: fmt.Sprintf("/collide%d", k), Method: "POST"}})
+			}
+			tag("go_name_collision")
+		}
 		f.Services = append(f.Services, svc)
 	}
 	return req, tags
